@@ -405,6 +405,22 @@ func (r *Run) panicSitesIn(f *ssa.Function, nilableParams map[*ssa.Parameter]boo
 						continue
 					}
 				}
+				// a package-level table (slice literal nobody assigns) indexed by a constant below the literal's length
+				if ld, isLd := X.(*ssa.UnOp); isLd && ld.Op == token.MUL {
+					if g, isG := ld.X.(*ssa.Global); isG {
+						if k, ok := constInt(I); ok && k >= 0 && k < core.GlobalLiteralLen(g) {
+							continue
+						}
+					}
+				}
+				// the whole of a fixed-size array (a slice literal) indexed by a constant below its length
+				if sl, isSl := X.(*ssa.Slice); isSl && sl.Low == nil && sl.High == nil && sl.Max == nil {
+					if n, isArr := arrayLen(sl.X.Type()); isArr {
+						if k, ok := constInt(I); ok && k >= 0 && k < n {
+							continue
+						}
+					}
+				}
 				at := ff.At(ins)
 				xt, it := ff.TB.Of(X), ff.TB.Of(I)
 				desc := fmt.Sprintf("%s[%s]", short(xt.String(), 60), short(it.String(), 60))
